@@ -4,7 +4,11 @@
  **/
 'use strict'
 const { getPrepareStackTrace, kSymbolPrepareStackTrace } = require('./js/stack-trace/')
-const { cacheRewrittenSourceMap, getOriginalPathAndLineFromSourceMap } = require('./js/source-map')
+const {
+  cacheRewrittenSourceMap,
+  removeRewrittenSourceMap,
+  getOriginalPathAndLineFromSourceMap
+} = require('./js/source-map')
 
 class DummyRewriter {
   rewrite (code, file) {
@@ -70,6 +74,9 @@ class CacheRewriter extends NonCacheRewriter {
       const { metrics, content } = response
       if (metrics?.status === 'modified') {
         cacheRewrittenSourceMap(file, content)
+      } else if (metrics?.status === 'notmodified') {
+        // the file is now served as written: a map cached by an earlier rewrite no longer applies
+        removeRewrittenSourceMap(file)
       }
     } catch (e) {
       this.logError(e)
